@@ -66,6 +66,20 @@ def drive(ctx):
                     if k == 3 or not q:
                         src = mk_dt(zr, far, f)
                         ctx.emit("replace", {"o": list(w), "f": (-1, 0, 1)[(n // 4) % 3]}, [src])
+                # partial overrides from a NEARBY value: only one field differs (same day, same hour, same minute)
+                for (i, alt) in ((3, (w[3] + 5) % 24), (4, (w[4] + 30) % 60), (4, (w[4] + 1) % 60), (5, (w[5] + 29) % 60)):
+                    n2 = n + i + alt
+                    if q and n2 % 3:
+                        continue
+                    sw = list(w)
+                    sw[i] = alt
+                    o = [-1] * 7
+                    o[i] = w[i]
+                    src = mk_dt(zr, sw, n2 % 2)
+                    ctx.emit("set", {"o": o, "entry": "set"}, [src])
+                    ctx.emit("set", {"o": [-1, -1, -1] + w[3:], "entry": "at"}, [src])
+                    if n2 % 3 == 0 or not q:
+                        ctx.emit("replace", {"o": o, "f": (-1, 0, 1)[n2 % 3]}, [src])
     # fixed offsets and UTC: every wall time is unique
     for k in range(40 if q else 400):
         fo = rnd.randrange(-86399, 86400) if k % 2 else rnd.choice((-86340, -19800, 0, 20700, 50400, 86340))
